@@ -94,7 +94,7 @@ func TestVerif_C06_NoStaleHits(t *testing.T) {
 	c := stat.For("C06", "history-"+queueLabel()).Rule("histories in a bubble on one pipeline connection: 1-4 callers x 1-6 cached reads (DoCache, DoMultiCache, MGetCache, DoCache(MGET)) over 4 keys with client TTLs 5 ms-60 s and static TTL, tracking mode OPTIN/OPTOUT/BCAST, built-in LRU or NewSimpleCacheAdapter store, fetch latency up to 9 ms so invalidations arrive while entries are pending, and writes / deletes / FLUSHALL / expiring SETs / connection kills by other clients at generated instants; values carry key@version; oracle: a hit must be a value of exactly that key that had not been overwritten, deleted, flushed or expired strictly before the call started (all pushes sent at an earlier virtual instant have been processed), a fetched value must have been current during the call; non-trivial = a hit served after at least one earlier invalidation of that key")
 	defer c.Flush()
 	rapid.Check(t, func(rt *rapid.T) {
-		plan := genCachePlan(rt)
+		plan := genCachePlanForms(rt, true)
 		saveCase("c06", plan)
 		run := cacheRun(t, plan)
 		if run.Res.Frozen {
@@ -225,9 +225,9 @@ func distinct(ks []string) []string {
 // cFetches lists, per key, the executions of a fetch of that key on a connection (GET inside
 // the cache wrappers or a tagged static-TTL GET / MGET), in server order.
 type cFetch struct {
-	Conn        int
-	RecvUs, At  int64
-	Key         string
+	Conn       int
+	RecvUs, At int64
+	Key        string
 }
 
 func cFetches(run cRun) map[string][]cFetch {
@@ -414,7 +414,7 @@ func TestVerif_C07_ExpiryEndToEnd(t *testing.T) {
 			// a fetch: expected expiry
 			want := clientExp
 			se, hasSrv := srvExpire[r.Val]
-			static := op.Static && (op.Kind == "get" || op.Kind == "multi")
+			static := op.staticAt(r.Pos)
 			if hasSrv && !static && !r.Nil {
 				srvMs := run.EpochMs + se/1000
 				if srvMs < want {
